@@ -6,6 +6,8 @@ import (
 	"fmt"
 	"io"
 	"os"
+
+	"github.com/douban/gobeansdb/verifhook"
 )
 
 const (
@@ -143,6 +145,7 @@ func newHintFileWriter(path string, maxOffset uint32, bufsize int) (w *hintFileW
 	var fd *os.File
 	tmp := path + ".tmp"
 	logger.Infof("create hint file: %s", tmp)
+	verifhook.Point("fs.create", tmp)
 	fd, err = os.Create(tmp)
 	if err != nil {
 		logger.Errorf(err.Error())
@@ -201,7 +204,9 @@ func (w *hintFileWriter) close() error {
 	w.fd.Write(buf[:])
 	w.fd.Close()
 	tmp := w.path + ".tmp"
+	verifhook.Point("fs.rename.before", tmp, w.path)
 	err := os.Rename(tmp, w.path)
+	verifhook.Point("fs.rename.after", tmp, w.path)
 	if err != nil {
 		return err
 	} else {
